@@ -1,0 +1,42 @@
+//go:build verif
+
+package vgirpc
+
+import "time"
+
+// Verification hooks (build tag "verif") for the call-state cache. Add-only
+// thin wrappers; nothing here is compiled into normal builds.
+
+// VerifC15CacheShift makes every call-state cache entry d older (its expiry
+// moves d into the past): the harness's stand-in for letting d of wall-clock
+// time pass.
+func (h *HttpServer) VerifC15CacheShift(d time.Duration) {
+	c := h.callStates
+	if c == nil {
+		return
+	}
+	c.mu.Lock()
+	defer c.mu.Unlock()
+	for el := c.order.Front(); el != nil; el = el.Next() {
+		e := el.Value.(*callStateEntry)
+		e.expiresAt = e.expiresAt.Add(-d)
+	}
+}
+
+// VerifC15CacheKeys lists the cache keys, most recently used first.
+func (h *HttpServer) VerifC15CacheKeys() []string {
+	c := h.callStates
+	if c == nil {
+		return nil
+	}
+	c.mu.Lock()
+	defer c.mu.Unlock()
+	var out []string
+	for el := c.order.Front(); el != nil; el = el.Next() {
+		out = append(out, el.Value.(*callStateEntry).key)
+	}
+	return out
+}
+
+// VerifC15TokenTTL returns the configured token TTL.
+func (h *HttpServer) VerifC15TokenTTL() time.Duration { return h.tokenTTL }
